@@ -5,7 +5,7 @@ Set Extraction Optimize.
 Separate Extraction
   Dec.to_dec Dec.Z_to_dec RespT.resp
   Migrate.init Migrate.step Migrate.run Migrate.observe Migrate.history Migrate.register_spec Migrate.bracketed
-  Migrate.c11_step Migrate.commit_step Migrate.classified_step Migrate.c11_ok Migrate.commit_ok Migrate.classified_ok
+  Migrate.c11_step Migrate.commit_step Migrate.classified_step Migrate.ensured_step Migrate.ensured_ok Migrate.c11_ok Migrate.commit_ok Migrate.classified_ok
   Migrate.quiescent Migrate.L Migrate.val.
 (* the command tables of Model/Migrate.v are Coq strings; extracting them would put a String.ml beside the driver that
    shadows OCaml's; checks/C03.py reads the four lists from the .v text instead and Props/C03.v evaluates them *)
